@@ -21,6 +21,8 @@ theorem inv_step {T : Nat} {s s' : St} {o : Op} (hT : 1 ≤ T) (hi : Inv T s)
   | reconnecting => exact inv_reconnecting hi h
   | reconnect => exact inv_reconnect hi h
   | pong id => exact inv_pong hi h
+  | pause => simp only [step, Prod.mk.injEq, and_true] at h; subst h; exact inv_flow true hi
+  | resume => simp only [step, Prod.mk.injEq, and_true] at h; subst h; exact inv_flow false hi
 
 theorem reach_inv {T : Nat} {s : St} (hT : 1 ≤ T) (hr : Reach (Cfg.real T) s) : Inv T s := by
   induction hr with
@@ -74,6 +76,8 @@ theorem step_drops {T : Nat} {s : St} {o : Op} (ho : o ≠ .tick) :
   | stop => exact mgrInput_drops _ _ _
   | reconnecting => exact mgrInput_drops _ _ _
   | reconnect => exact mgrInput_drops _ _ _
+  | pause => rfl
+  | resume => rfl
   | pong id =>
     simp only [step, gotPong]
     split
@@ -158,6 +162,121 @@ theorem tick_drop {T : Nat} {s s' : St} (hi : Inv T s)
       subst h
       exact Or.inl rfl
 
+
+/-! ### every Ping generated while a connection is in use is written to it -/
+
+@[simp] theorem mgrOutputs_pings (b : Bool) (outs : List Manager.Output) (s : St) :
+    (mgrOutputs b outs s).1.pings = s.pings := by
+  induction outs generalizing s with
+  | nil => rfl
+  | cons o r ih =>
+    simp only [mgrOutputs]
+    cases o <;> simp [mgrOutput, ih]
+    case abandon_connection =>
+      cases hc : s.conn <;> simp [ih]
+
+theorem mgrInput_pings (b : Bool) (i : Manager.Input) (s : St) : (mgrInput b i s).1.pings = s.pings := by
+  simp only [mgrInput]
+  split <;> simp
+
+theorem step_pings {T : Nat} {s s' : St} {o : Op} {c : Nat} (hi : Inv T s) (hc : s.conn = some c)
+    (h : step (Cfg.real T) s o = (s', none)) :
+    ∀ p ∈ s'.pings, p ∈ s.pings ∨ (p.wire = some c ∧ p.sent = s'.now ∧ o = .tick) := by
+  have hmg : ∀ b i, step (Cfg.real T) s o = mgrInput b i s → ∀ p ∈ s'.pings, p ∈ s.pings ∨ (p.wire = some c ∧ p.sent = s'.now ∧ o = .tick) := by
+    intro b i he p hp
+    have := mgrInput_pings b i s
+    rw [← he, h] at this
+    exact Or.inl (this ▸ hp)
+  cases o with
+  | start => exact hmg _ _ rfl
+  | please b => exact hmg _ _ rfl
+  | reconnecting => exact hmg _ _ rfl
+  | reconnect => exact hmg _ _ rfl
+  | stop =>
+    intro p hp
+    have := mgrInput_pings false .k_stop { s with stopCalled := true }
+    simp only [step] at h
+    rw [h] at this
+    exact Or.inl (this ▸ hp)
+  | pause => simp only [step, Prod.mk.injEq, and_true] at h; subst h; exact fun p hp => Or.inl hp
+  | resume => simp only [step, Prod.mk.injEq, and_true] at h; subst h; exact fun p hp => Or.inl hp
+  | pong id =>
+    obtain ⟨h1, h2, h3, h4, h5, h6, h7, h8, h9, h10, h11, h12, h13⟩ := hi
+    simp only [step, gotPong] at h
+    split at h
+    · simp only [ttInput, real_tbl] at h
+      cases htr : s.traffic with
+      | none => simp [htr] at h
+      | some st =>
+        cases st <;> simp [htr, TrafficTimer.table, ttOutputs] at h
+        all_goals (subst h; intro p hp; simp at hp; exact Or.inl hp.1)
+    · simp at h; subst h; exact fun p hp => Or.inl hp
+  | made =>
+    by_cases hl : s.role = some true
+    · obtain ⟨_, _, hcn, _⟩ := made_leader hi hl h
+      rw [hcn] at hc; cases hc
+    · simp only [step, connMade, hl, if_false, andThen_ok] at h
+      have := mgrInput_pings false .connection_made { s with nextConn := s.nextConn + 1 }
+      generalize mgrInput false .connection_made { s with nextConn := s.nextConn + 1 } = r at h this
+      obtain ⟨s3, e3⟩ := r
+      cases e3 with
+      | some e => simp at h
+      | none => simp at h this; subst h; intro p hp; exact Or.inl (this ▸ hp)
+  | lost =>
+    obtain ⟨h1, h2, h3, h4, h5, h6, h7, h8, h9, h10, h11, h12, h13⟩ := hi
+    simp only [step, connLost, ttInput, real_tbl, mgrInput] at h
+    cases htr : s.traffic with
+    | none =>
+      simp [htr] at h
+      cases ho : s.outConn <;> simp [ho] at h
+      cases hr : s.role with
+      | none =>
+        simp [hr] at h
+        cases hm : s.mgr <;> simp [hm, Manager.table, mgrOutputs, mgrOutput] at h
+        all_goals (subst h; exact fun p hp => Or.inl hp)
+      | some b =>
+        cases b <;> simp [hr] at h
+        all_goals (cases hm : s.mgr <;> simp [hm, Manager.table, mgrOutputs, mgrOutput] at h)
+        all_goals (subst h; exact fun p hp => Or.inl hp)
+    | some st =>
+      have hl : s.role = some true := by
+        cases hr : s.role with
+        | none => simp_all
+        | some b => cases b <;> simp_all
+      cases st <;> simp [htr, TrafficTimer.table, ttOutputs] at h
+      all_goals (cases ho : s.outConn <;> simp [ho] at h)
+      all_goals (simp [hl] at h)
+      all_goals (cases hm : s.mgr <;> simp [hm, Manager.table, mgrOutputs, mgrOutput] at h)
+      all_goals (subst h; exact fun p hp => Or.inl hp)
+  | tick =>
+    obtain ⟨h1, h2, h3, h4, h5, h6, h7, h8, h9, h10, h11, h12, h13⟩ := hi
+    simp only [step, tick] at h
+    cases htm : s.timer with
+    | none => simp [htm] at h; subst h; exact fun p hp => Or.inl hp
+    | some d =>
+      obtain ⟨hm, hdr, hd, hnow⟩ := h6 d htm
+      obtain ⟨c', hc', ho, htr⟩ := h4 (by simp [hm, inUse])
+      have hl : s.role = some true := by
+        cases hr : s.role with
+        | none => simp_all
+        | some b => cases b <;> simp_all
+      simp only [htm] at h
+      by_cases hdue : d ≤ s.now + 1
+      · simp only [hdue, if_true, timerExpired, ttInput, real_tbl] at h
+        rcases htr hl with htr | htr
+        · simp [htr, TrafficTimer.table, ttOutputs, sendPingResetTimer, sendPing, ho] at h
+          subst h
+          intro p hp
+          simp at hp
+          rcases hp with hp | hp
+          · exact Or.inl hp
+          · subst hp; refine Or.inr ⟨?_, rfl, rfl⟩; simp; rw [hc'] at hc; exact Option.some.inj hc
+        · simp [htr, TrafficTimer.table, ttOutputs, signalReconnect, hc'] at h
+          subst h
+          exact fun p hp => Or.inl hp
+      · simp [hdue] at h
+        subst h
+        exact fun p hp => Or.inl hp
 
 /-! ### nothing but `tick` moves the clock; the TrafficTimer never does -/
 
